@@ -176,6 +176,34 @@ M = [
      "        let mut txn = self.indexes.write_txn()?;\n        vpoint!(\"store.after_write_txn\");\n\n        // Return Duplicate if it already exists\n        if self.indexes.get_offset_by_id(&txn, event.id())?.is_some() {\n            return Err(InnerError::Duplicate.into());\n        }",
      "        // Return Duplicate if it already exists\n        {\n            let rtxn = self.indexes.read_txn()?;\n            if self.indexes.get_offset_by_id(&rtxn, event.id())?.is_some() {\n                return Err(InnerError::Duplicate.into());\n            }\n        }\n        let mut txn = self.indexes.write_txn()?;\n        vpoint!(\"store.after_write_txn\");",
      "duplicate check moved before the write lock: two simultaneous submissions both succeed"),
+    ("foreign-id-with-relay-hint", "C10", "pocket-db/src/lib.rs",
+     "                                if target.pubkey() != event.pubkey() {\n                                    return Err(InnerError::InvalidDelete.into());\n                                }",
+     "                                if target.pubkey() != event.pubkey() && tag.next().is_none() {\n                                    return Err(InnerError::InvalidDelete.into());\n                                }",
+     "the author check is skipped for 'e' tags that carry a third string (relay hint)"),
+    ("no-marker-for-deleted-requests", "C11", "pocket-db/src/lib.rs",
+     "                            // Mark deleted\n                            // NOTE: if we didn't have the target event, we presume this is valid,",
+     "                            if self.get_event_by_id(id)?.map(|t| t.kind().as_u16() == 5).unwrap_or(false) {\n                                continue;\n                            }\n                            // Mark deleted\n                            // NOTE: if we didn't have the target event, we presume this is valid,",
+     "deleting a stored deletion request removes it but leaves no marker: it can be resubmitted"),
+    ("vanish-limit-8", "C18", "pocket-db/src/lib.rs",
+     "        let filter = OwnedFilter::new(&[], &[event.pubkey()], &[], &tags, None, None, None)?;",
+     "        let filter = OwnedFilter::new(&[], &[event.pubkey()], &[], &tags, None, None, Some(8))?;",
+     "vanish only removes the 8 newest events of the author"),
+    ("tc-range-excludes-since", "C05", "pocket-db/src/lmdb/mod.rs",
+     "        let end_prefix = Self::key_tc_index(tagbyte, tagvalue, since, [255; 32].into());",
+     "        let end_prefix = Self::key_tc_index(tagbyte, tagvalue, since, [0; 32].into());",
+     "tag plan: events with created_at == since fall outside the range"),
+    ("rebuild-truncates-marker-time", "C16", "pocket-db/src/lib.rs",
+     "                .mark_naddr_deleted(&mut new_txn, &addr, when)?;",
+     "                .mark_naddr_deleted(&mut new_txn, &addr, Time::from_u64(when.as_u64() as u32 as u64))?;",
+     "address deletion times above 2^32 are truncated by rebuild"),
+    ("verify-created-at-u32", "C08", "pocket-types/src/event.rs",
+     "            self.pubkey(),\n            self.created_at(),\n            self.kind(),\n            self.tags()?,",
+     "            self.pubkey(),\n            self.created_at().as_u64() as u32,\n            self.kind(),\n            self.tags()?,",
+     "verify() hashes created_at truncated to 32 bits"),
+    ("ktc-key-truncates-at-181", "C17", "pocket-db/src/lmdb/mod.rs",
+     "        key.extend(kind.deref().to_be_bytes());\n        key.push(letter);\n        if tag_value.len() <= PADLEN {",
+     "        key.extend(kind.deref().to_be_bytes());\n        key.push(letter);\n        if tag_value.len() < PADLEN {",
+     "kind+tag key for a value of exactly 182 bytes is built by the truncating branch (same bytes: equivalent, must NOT be flagged)"),
 ]
 
 
